@@ -98,6 +98,7 @@ def decode(data: bytes) -> dict:
         ln = gen_line(d, table, names)
         ln["s"] = d.i(0, case["nsess"] - 1)
         case["lines"].append(ln)
+    case["stop_phase"] = d.p(0.3)
     return case
 
 
@@ -247,6 +248,29 @@ class C18Engine(Engine):
                     r = await s.command("num-running")
                     if len(r) != 1 or not r[0].strip().isdigit():
                         fail("session/not-usable-afterwards", f"session {i}: num-running -> {r!r}")
+            # the server stops serving (serving task cancelled): each session that is waiting for input still answers
+            # the next line it reads exactly once, after which it may end
+            if case.get("stop_phase"):
+                labels.add("server-stop-phase")
+                for s in sess:
+                    s.server.serving = False
+                for i, s in enumerate(sess):
+                    if pending[i] or not s.alive():
+                        continue
+                    r = await s.command("num-ended")
+                    if len(r) != 1 or not r[0].strip().isdigit():
+                        fail("reply/line-after-server-stop-not-answered-once", f"session {i}: {r!r}")
+                    if s.escaped is not None:
+                        fail("session/ended-or-crashed", f"after stop: escaped={s.escaped!r}")
+                hmod.open_all()
+                await settle()
+                collect()
+                for i, s in enumerate(sess):
+                    if s.escaped is not None:
+                        fail("session/ended-or-crashed", f"session {i}: escaped={s.escaped!r}")
+                    s.stop()
+                await settle()
+                return
             # release whatever blocks, then every line must have exactly one reply
             for _ in range(20):
                 hmod.open_all()
